@@ -102,6 +102,10 @@ func c11NewGraph(r *kit.Rand, forXWrite bool, cryptFilters bool) *c11Graph {
 			body := r.Bytes(r.Intn(600))
 			if r.Chance(1, 4) {
 				body = []byte{}
+			} else if r.Chance(1, 5) {
+				// above the target Writer's buffering threshold (1024 bytes)
+				body = r.Bytes(kit.Pick(r, []int{1023, 1024, 1025, 1500, 5000}))
+				g.hasFeat["stream-above-1024-bytes"] = true
 			}
 			d := kit.XDict{"Own": c11GenValue(r, 1, pool, g.hasFeat), "Num": int64(num)}
 			raw := body
@@ -531,9 +535,11 @@ func c11Source(c *kit.Case, g *c11Graph, viaXWrite bool, encrypted bool) (*pdf.R
 	if cfg.Version < pdf.V1_2 {
 		cfg.Version = pdf.V1_2 // FlateDecode
 	}
-	var buf bytes.Buffer
+	// (a seekable sink: the object numbers are given explicitly, and on other
+	// sinks the Writer allocates numbers of its own for the lengths of long streams)
+	buf := &gen.SeekSink{}
 	opt := &pdf.WriterOptions{HumanReadable: cfg.HumanReadable, UserPassword: cfg.UserPW, OwnerPassword: cfg.OwnerPW, UserPermissions: pdf.PermAll}
-	w, err := pdf.NewWriter(&buf, cfg.Version, opt)
+	w, err := pdf.NewWriter(buf, cfg.Version, opt)
 	if err != nil {
 		c.Violationf("harness/source-writer", "NewWriter: %v", err)
 		return nil, "", false
@@ -582,7 +588,7 @@ func c11Source(c *kit.Case, g *c11Graph, viaXWrite bool, encrypted bool) (*pdf.R
 	if pw == "" {
 		pw = cfg.OwnerPW
 	}
-	rd, err := pdf.NewReader(bytes.NewReader(buf.Bytes()), int64(buf.Len()), &pdf.ReaderOptions{Password: pw})
+	rd, err := pdf.NewReader(bytes.NewReader(buf.Buf), int64(len(buf.Buf)), &pdf.ReaderOptions{Password: pw})
 	if err != nil {
 		c.Violationf("harness/source-unreadable", "source written by the Writer does not open: %v", err)
 		return nil, "", false
